@@ -177,6 +177,12 @@ type dsSim struct {
 	splitPct       int        // chance that a processor step is split at the pop
 	crashed        bool
 	between        func() // called between scheduling steps (adversary)
+	reqThisConn    map[bitcoin.Hash32]int // block hash -> chain-change epoch at which it was requested on this connection
+	chainEpoch     int
+	wireRequests   int
+	// the node was restarted on a stored chain that no longer contains the configured start block
+	// although the start block had been found before (known finding of C02, see DESIGN §5)
+	startOrphanedAtRestart bool
 }
 
 // guard runs node code and turns a panic into a finding (in the real node the goroutine, and
@@ -236,12 +242,14 @@ func (s *dsSim) hookLog() {
 // the switch say nothing about the new best chain (a revived branch has to be announced again).
 func (s *dsSim) chainChanged() {
 	s.handledHeaders = map[bitcoin.Hash32]bool{}
+	s.chainEpoch++
 }
 
 // connect re-issues what Run does when a connection is established.
 func (s *dsSim) connect() {
 	s.e.node.state.MarkConnected()
 	s.peer.newConnection()
+	s.reqThisConn = map[bitcoin.Hash32]int{}
 	s.inbox = nil
 	s.e.drain()
 	s.e.node.outgoing.Add(buildVersionMsg(s.e.cfg.UserAgent, int32(s.e.node.blocks.LastHeight())))
@@ -276,6 +284,9 @@ func (s *dsSim) feed() bool {
 	out := s.e.drain()
 	for _, m := range out {
 		s.tracef("node->peer %s", describeMsg(m))
+		if gd, ok := m.(*wire.MsgGetData); ok {
+			s.judgeBlockRequests(gd)
+		}
 		s.inbox = append(s.inbox, s.peer.respond(m)...)
 	}
 	return len(out) > 0
@@ -573,11 +584,21 @@ func (s *dsSim) checkCallbacks(handlers int) {
 			}
 			if !first {
 				if ev.Height > top+1 {
-					s.find("C02", "C02/callback-heights-not-contiguous", fmt.Sprintf("handler %d: HandleHeaders height %d after top %d", h, ev.Height, top))
+					sig := "C02/callback-heights-not-contiguous"
+					if s.startOrphanedAtRestart && *ev.Header.BlockHash() == s.e.cfg.StartHash {
+						sig += "/resumed-at-start-block-orphaned-across-restart"
+					}
+					s.find("C02", sig, fmt.Sprintf("handler %d: HandleHeaders height %d after top %d", h, ev.Height, top))
 					return
 				}
 				if par, ok := shadow[ev.Height-1]; ok && ev.Header.PrevBlock != *par.BlockHash() {
-					s.find("C02", "C02/callback-parent-mismatch", fmt.Sprintf("handler %d: block announced at height %d does not have the block announced at %d as parent", h, ev.Height, ev.Height-1))
+					sig, more := "C02/callback-parent-mismatch", ""
+					if s.startOrphanedAtRestart && *ev.Header.BlockHash() == s.e.cfg.StartHash {
+						// announcements resumed at the start block itself, not at fork+1
+						sig += "/resumed-at-start-block-orphaned-across-restart"
+						more = " (the start block had been reorganised away, the node was restarted on the other branch, and the start block's branch came back: blocks below the start block were stored silently)"
+					}
+					s.find("C02", sig, fmt.Sprintf("handler %d: block announced at height %d does not have the block announced at %d as parent%s", h, ev.Height, ev.Height-1, more))
 					return
 				}
 			}
@@ -592,6 +613,38 @@ func (s *dsSim) checkCallbacks(handlers int) {
 			if b := s.peer.tree.ByHash[*ev.Header.BlockHash()]; b != nil && b.Height != ev.Height {
 				s.find("C02", "C02/callback-wrong-height", fmt.Sprintf("handler %d: block of height %d announced at height %d", h, b.Height, ev.Height))
 				return
+			}
+		}
+	}
+}
+
+// judgeBlockRequests checks a getdata(block) message at the moment it goes on the wire (C13):
+// no block is requested twice on one connection unless the peer's best chain changed in between
+// (its branch was abandoned), and every requested block's parent was requested earlier on this
+// connection or is already held / being processed by the node (chain order).
+func (s *dsSim) judgeBlockRequests(gd *wire.MsgGetData) {
+	if s.reqThisConn == nil {
+		s.reqThisConn = map[bitcoin.Hash32]int{}
+	}
+	for _, iv := range gd.InvList {
+		if iv.Type != wire.InvTypeBlock {
+			continue
+		}
+		s.wireRequests++
+		b := s.peer.tree.ByHash[iv.Hash]
+		if b == nil {
+			s.find("C13", "C13/wire/unknown-block-requested", "getdata for a hash the peer never announced")
+			continue
+		}
+		if ep, dup := s.reqThisConn[iv.Hash]; dup && ep == s.chainEpoch {
+			s.find("C13", "C13/wire/block-requested-twice", fmt.Sprintf("block %d (%s) requested twice on one connection although the peer's chain did not change in between", b.Height, iv.Hash.String()[:8]))
+		}
+		s.reqThisConn[iv.Hash] = s.chainEpoch
+		if b.Parent != nil {
+			_, parentRequested := s.reqThisConn[b.Parent.Hash]
+			ph := b.Parent.Hash
+			if !parentRequested && !s.e.node.blocks.Contains(&ph) && !s.e.node.state.BlockIsRequested(&ph) {
+				s.find("C13", "C13/wire/request-out-of-chain-order", fmt.Sprintf("block %d requested although its parent was neither requested on this connection nor held by the node", b.Height))
 			}
 		}
 	}
